@@ -84,14 +84,21 @@ def obs_event(e):
     return (e.timestamp, e.data, tuple(e.values), e.tid, e.debugid, e.eventid, e.func_qualifier)
 
 
-def judge(blob, threads, recs, kseq, cpu, parser=None):
+def section_snapshot(p):
+    return repr((p.trace_codes, p.kernel_extensions, p.dyld_modules, p.processes, p.images))
+
+
+def judge(blob, threads, recs, kseq, cpu, parser=None, offset=0):
+    """offset: the dump begins `offset` bytes into the stream (the caller consumed a prefix); the stream is handed over positioned there."""
     bad = []
     p = parser if parser is not None else KdBufParser({99: 1}, {1: 'stale'})
     out = []
     err = None
     tables_at_first = None
+    stream = io.BytesIO(bytes((i * 11 + 3) % 255 + 1 for i in range(offset)) + blob)
+    stream.seek(offset)
     try:
-        for x in p.parse(io.BytesIO(blob)):
+        for x in p.parse(stream):
             if tables_at_first is None:
                 tables_at_first = (dict(p.threads_pids), dict(p.pids_names))
             out.append(x)
@@ -112,6 +119,10 @@ def judge(blob, threads, recs, kseq, cpu, parser=None):
     if tables_at_first is not None and first_log > 0 and tables_at_first != (exp_tp, exp_pn):
         bad.append(('v3-thread-tables', {'got': repr(tables_at_first), 'exp': repr((exp_tp, exp_pn))}))
     m = expected_meta(kseq)
+    try:
+        first_read = section_snapshot(p)
+    except Exception as ex:
+        return bad + [('v3-section-read-raised', {'err': repr(ex)[:200]})]
     if p.trace_codes != m['codes']:
         bad.append(('v3-trace-codes', {'got': p.trace_codes, 'exp': m['codes']}))
     if p.kernel_extensions.get('Binaries') != m['kexts']:
@@ -126,6 +137,8 @@ def judge(blob, threads, recs, kseq, cpu, parser=None):
         bad.append(('v3-images', {'got': repr(p.images), 'exp': repr(m['images'])}))
     if cpu is not None and (p.v3_header is None or p.v3_header.cpu_info != cpu):
         bad.append(('v3-header-cpu-info', {}))
+    if section_snapshot(p) != first_read:
+        bad.append(('v3-section-changes-when-read-again', {'first': first_read[:200], 'again': section_snapshot(p)[:200]}))
     # logs
     rev = {v: k for k, v in STRINGS.items()}
     if len(logs) != len(m['logs']):
@@ -183,7 +196,7 @@ class C03(Check):
             'included) x both chunk-size conventions. Sub-space "meta": all sequences of <=3 (quick) / <=4 (thorough) '
             'metadata/log blocks over 7 kinds (dyld modules, trace codes, processes, kexts, images, log events, unknown tag) '
             'with occurrence-numbered payloads, the string index placed at every position, x thread maps (4) x gap bytes after '
-            'MORE_EVENTS (4). Sub-space "blocks": every filler length 362..531, 3946..4115, 8042..8211 before the stackshot sentinel, before the thread-map tag and after MORE_EVENTS (a tag at / across every 512/4096/8192-byte block boundary). Sub-space "gapraw": the next events tag 0..80 bytes after a MORE_EVENTS tag, in every chunking of 3 records. Sub-space "tagged": records whose first bytes are container tags / the v3 magic, in every position and chunking. Sub-space "order": records with equal and decreasing timestamps in every order and chunking stay in file order. Sub-space "cli": the processes / kexts / images commands print the sections as JSON. Sub-space "long": 2^k-1, 2^k, 2^k+1 records (k = 6..12) in 1..3 chunks. Sub-space "reuse": ONE parser object parses '
+            'MORE_EVENTS (4). Sub-space "blocks": every filler length 362..531, 3946..4115, 8042..8211 before the stackshot sentinel, before the thread-map tag and after MORE_EVENTS (a tag at / across every 512/4096/8192-byte block boundary). Sub-space "gapraw": the next events tag 0..80 bytes after a MORE_EVENTS tag, in every chunking of 3 records. Sub-space "tagged": records whose first bytes are container tags / the v3 magic, in every position and chunking. Sub-space "order": records with equal and decreasing timestamps in every order and chunking stay in file order. Sub-space "cli": the processes / kexts / images commands print the sections as JSON. Sub-space "long": 2^k-1, 2^k, 2^k+1 records (k = 6..12) in 1..3 chunks; 2^k-1..2^k+1 chunks (k = 6..11) of one record; dumps that begin 1..4100 bytes into the stream. Every section is read twice and must not change. Sub-space "reuse": ONE parser object parses '
             'two dumps in turn (6 x 6 block sequences x 3 map pairs); the second parse must leave the second dump\'s metadata only. Oracle: events all/in order/== independent decode/before any log; tables after the thread-map '
             'chunk and after logs; list-valued sections concatenated in file order; scalar sections equal one of their '
             'payloads; logs in order with strings resolved. non-trivial = >=2 chunks or >=2 blocks. states = distinct '
@@ -236,6 +249,24 @@ class C03(Check):
                     acc.case(nontrivial=True, transitions=n + 1, state=h64(('long', n, comp)), outcome=h64(('long', n, comp)))
                     for sig, detail in bad:
                         acc.violation(sig + ':long-dump', {'kind': 'long', 'n': n, 'comp': list(comp)}, detail)
+            # many chunks of one record each (a chunk loop that nests / recurses per chunk is invisible to <=3 chunks)
+            for n in sorted({2 ** k + d for k in range(6, 12) for d in (-1, 0, 1)}):
+                recs = [B.rec(1000 + i, (i, i * 3, 7, 9), 1 + i % 3, 0x040c0004 | (i % 4)) for i in range(n)]
+                blob = B.v3(THREADMAPS[0], [[r] for r in recs], [blk('codes', 0)])
+                bad = judge(blob, THREADMAPS[0], recs, ['codes'], None)
+                acc.case(nontrivial=True, transitions=n + 1, state=h64(('chunks', n)), outcome=h64(('chunks', n)))
+                for sig, detail in bad:
+                    acc.violation(sig + ':many-chunks', {'kind': 'long', 'n': n, 'comp': 'one-per-record'}, detail)
+            # the dump does not begin at stream position 0
+            for off in (1, 7, 8, 9, 64, 0x100, 0x120, 0x123, 4091, 4096, 4100):
+                for comp in ((3,), (1, 2), (1, 0, 2)):
+                    for kseq in ((), ('codes',), ('kexts', 'logs', 'codes')):
+                        params = dict(DEFAULT, comp=comp, kseq=kseq, cpu_len=off % 8, f1=off % len(FILL1), f2=off % len(FILL2))
+                        blob, threads, recs, ks, cpu = make(**params)
+                        bad = judge(blob, threads, recs, ks, cpu, offset=off)
+                        acc.case(nontrivial=True, transitions=4, state=h64(('offset', off, comp)), outcome=h64(('offset', off % 8)))
+                        for sig, detail in bad:
+                            acc.violation(sig + ':dump-not-at-stream-start', {'kind': 'long', 'offset': off, 'comp': list(comp), 'kseq': list(kseq)}, detail)
         elif desc[0] == 'blocks':
             # a scanner that reads in blocks: every filler length that puts a tag at / across a 4096- or 8192-byte boundary
             which = desc[1]
